@@ -35,7 +35,8 @@ CHECKS = {
          "iterator the specification's iterator. Proved: pattern order, rolling-hash identity mod 2^64, hash/fingerprint bucket sharing of "
          "co-located patterns, nybble-mask soundness, lane algebra with carries, window schedule coverage incl. the overlapped final "
          "window, verification order. PARTIAL with respect to the code in one respect: the SSSE3/AVX2 instructions are modelled lane-wise "
-         "(trusted, bound by the crate's own vector unit tests and by this differential). Differential against packed::Searcher for every "
+         "(C06Vector: a transcription at the level of the Vector/FatVector methods, each defined by the semantics of the intrinsic it "
+         "wraps, is proved equal to the lane model; the intrinsic semantics are the trusted part). Differential against packed::Searcher for every "
          "Config the CPU supports, haystack lengths around 16/32/48, matches at every offset modulo the vector width.", "5 C06",
          "Lean proof on a lane-level functional model of Teddy / Rabin-Karp + differential against every packed variant"),
  "C17": ("other",
@@ -127,7 +128,11 @@ CHECKS = {
          "through the public Automaton trait and certified bisimilar to the noncontiguous NFA by a checker whose soundness "
          "is a Lean theorem (C04_cert_all_haystacks): equal observations after every byte string; C04_*_transfer prove that "
          "every engine function (find, iterator, stepwise overlapping) then returns identical results for every haystack, span, "
-         "anchoring and prefilter function. Top-level vs low-level agreement is differential.", "5 C04",
+         "anchoring and prefilter function. Beyond per-instance validation: transcriptions of the three builders (noncontiguous "
+         "compiler L1c, DFA builder L1d incl. byte classes and the Both-start interleaving, contiguous encoder L1e down to its u32 words) "
+         "are PROVED observationally equivalent to the ideal automaton for ALL pattern lists (C04_kinds_*, L1d_*, L1e_*), and every real "
+         "dump is certified against the matching transcription (certl1c / certdfa / certcontig). Top-level vs low-level agreement is "
+         "differential.", "5 C04, 12.6",
          "Lean-proved bisimulation certificate checker over dumped automata + engine transfer theorems + differential lines"),
  "C10": ("proof",
          "Lean theorems on the specification: occurrences/answers on a span equal those on the sub-slice shifted (C10_find_slice, "
